@@ -32,6 +32,7 @@ pub fn digest(b: &[u8]) -> String {
     format!("{} #{:08x}.{:02x}.{}.{}", b.len(), sum, xr, hex(&b[..24]), hex(&b[b.len() - 24..]))
 }
 
+pub fn api_status_pub(r: Result<(), shopify_function_wasm_api::write::Error>) -> usize { api_status(r) }
 fn api_status(r: Result<(), shopify_function_wasm_api::write::Error>) -> usize {
     use shopify_function_wasm_api::write::Error::*;
     match r { Ok(()) => 0, Err(IoError) => 1, Err(ExpectedKey) => 2, Err(ObjectLengthError) => 3, Err(ValueAlreadyWritten) => 4, Err(NotAnObject) => 5,
